@@ -115,8 +115,6 @@ def handle (j : Json) : Except String Json := do
       ("raises", jbool (raises x)),
       ("shape", jbool (Shape10 x)),
       ("wf", jbool (WF10 x)),
-      ("plain", jbool (PlainValues x)),
-      ("noclash", jbool (NoSuffixClash x)),
       ("tree", encXml t),
       ("log", jarr ((convertLog x).map encLog)),
       ("accepts", jbool (readerAccepts t)),
